@@ -65,7 +65,7 @@ def scanWord (T : Tables) : Str → Str × Str
   | [] => ([], [])
   | c :: cs =>
     if isBreak T c then ([], c :: cs)
-    else let r := scanWord T cs; (c :: r.1, r.2)
+    else (c :: (scanWord T cs).1, (scanWord T cs).2)
 
 /-- split at the first occurrence of `d`: text before it and text after it -/
 def splitAtChar (d : Char) : Str → Option (Str × Str)
@@ -112,16 +112,15 @@ def readField (T : Tables) (field : Str) (rem : Str) : Except Err (Token × Str)
       | none => .error .unterminatedQuote
       | some (v, rest) => .ok (.field field v, rest)
     else if c = '[' ∧ field = DATE_FIELD then readDateRange T field rem'
-    else let r := scanWord T (c :: rem'); .ok (.field field r.1, r.2)
+    else .ok (.field field (scanWord T (c :: rem')).1, (scanWord T (c :: rem')).2)
 
 /-- `Lexer::read_field_or_word` (called on a non-break, non-quote first character) -/
 def readFieldOrWord (T : Tables) (cs : Str) : Except Err (Token × Str) :=
-  let r := scanWord T cs
-  match splitAtChar ':' r.1 with
+  match splitAtChar ':' (scanWord T cs).1 with
   | some (pfx, after) =>
-    if KNOWN_FIELDS.contains (lower pfx) then readField T (lower pfx) (after ++ r.2)
-    else .ok (keywordOrWord r.1, r.2)
-  | none => .ok (keywordOrWord r.1, r.2)
+    if KNOWN_FIELDS.contains (lower pfx) then readField T (lower pfx) (after ++ (scanWord T cs).2)
+    else .ok (keywordOrWord (scanWord T cs).1, (scanWord T cs).2)
+  | none => .ok (keywordOrWord (scanWord T cs).1, (scanWord T cs).2)
 
 /-- one iteration of the `while let Some(ch) = self.peek()` loop of `tokenize` -/
 def lexStep (T : Tables) : Str → Except Err (Option Token × Str)
